@@ -253,7 +253,7 @@ def decorate_rtlgen(rng, d, src):
   fp = rtlgen.footprints(d)
   added, seen = 0, set()
   for _ in range(rng.randint(1, 3)):
-    blks = list(d.blocks)
+    blks = [b for b in d.blocks if not b.get('lam')]       # a `//= lambda` block has no Python name to put in U( ... )
     if not blks: break
     u = rng.choice(blks)
     comp = u['comp']
